@@ -497,7 +497,7 @@ def h11(ctx):
                 continue
             for a in c.args[1:]:
                 pl = mir.op_place(a)
-                if pl is None or b.local_ty(pl["l"]) != "L":
+                if pl is None or b.local_ty(pl["l"]).replace("&mut ", "").lstrip("&").strip() != "L":
                     continue
                 n += 1
                 r = b.role_of_operand(a)
